@@ -9,7 +9,7 @@
     comment types are exactly the tokens of the comment channel, whitespace is hidden, and the hidden
     channel holds only whitespace and catch-all characters (corollary of the C11 simulation). *)
 From Coq Require Import NArith List Bool.
-From SasLexer Require Import Model.Core Model.Lexer3 Spec.RefLex Proofs.RefLexTiling Proofs.RefLexShape Proofs.OcBase Proofs.OcWhole Proofs.OcAll.
+From SasLexer Require Import Model.Core Model.Lexer3 Spec.RefLex Proofs.RefLexTiling Proofs.RefLexShape Proofs.OcBase Proofs.OcWhole Proofs.OcAll Proofs.MacroFree.
 From SasLexer Require Import Gen.TokenType Gen.ErrorKind Gen.Channel Model.Base Model.Helpers Proofs.Tables.
 Import ListNotations.
 
@@ -43,13 +43,5 @@ Theorem C06_macro_free_channels : forall (msep : bool) (src : list char),
             (t_type t = T_WS -> t_chan t = CH_HIDDEN) /\
             (t_chan t = CH_HIDDEN -> t_type t = T_WS \/ t_type t = T_CatchAll))
          (b_toks (lr_buffer (lex (mkCfg false msep) src))).
-Proof.
-  intros msep src H. pose proof (lex_is_reflex_macro_free msep src H) as G. cbv zeta in G.
-  pose proof (reflex_shape src) as Sh.
-  destruct (reflex src) as [[T E] lit]. destruct G as (_ & _ & G3 & _). destruct Sh as [_ Hc].
-  revert G3. generalize (b_toks (lr_buffer (lex (mkCfg false msep) src))) as toks. clear -Hc.
-  induction Hc as [|u us Hu _ IH]; intros [|t ts] E0; cbn [map] in E0; try discriminate; constructor.
-  - injection E0 as Et Ec _ _ _. unfold chan_ok in Hu. rewrite Et, Ec. exact Hu.
-  - injection E0 as _ _ _ _ E2. apply IH. exact E2.
-Qed.
+Proof. exact mf_C06_macro_free_channels. Qed.
 Print Assumptions C06_macro_free_channels.
